@@ -44,7 +44,7 @@ inductive Res
   | okB (b : Bool)      -- a B-tree call that returned (b, nil)
   | noHandle            -- the caller holds no B-tree handle, so the call cannot be made
   | err (e : Err)
-  | panic               -- the call does not return: the goroutine panics (failing variants only, see `phase2TxF`)
+  | panic               -- the call does not return: the goroutine panics (no call of the current model does; see `phase2TxFLegacy`)
 deriving DecidableEq, Repr
 
 def Res.isOk : Res → Bool
@@ -399,16 +399,19 @@ def phase2TxF (s : St) (work : Bool) : R :=
     | .forWriting =>
       if work then
         -- phase2Commit failed (log(finalizeCommit) or the registry flip): priority rollback / rollback, error either way,
-        -- `committed` stays false. `log` has set committedState = finalizeCommit before its backend call failed, so
-        -- `rollback` enters `committedState > commitAddedNodes` and evaluates `t.btreesBackend[0]`: with no store
-        -- attached to the transaction that is an index-out-of-range PANIC (defect, finding C14-F3; `defer t.Close()` runs)
-        match s.backend with
-        | none => ⟨{ s with pd := 2, logState := 11 }, .panic, [], true⟩
-        | some _ =>
-          let rb := rollbackCore { s with pd := 2 }
-          ⟨rb.1, .err .other, rb.2, true⟩
+        -- `committed` stays false. (`rollback` skips its node-undo steps when no store is attached: fix fb2f596d.)
+        let rb := rollbackCore { s with pd := 2 }
+        ⟨rb.1, .err .other, rb.2, true⟩
       else R.ofOut (phase2Tx s)
     | _ => R.ofOut (phase2Tx s)       -- non-writers: no backend work
+
+/-- `Phase2Commit` as it was BEFORE fix fb2f596d (pinned tree): `log` had set committedState = finalizeCommit before its
+backend call failed, `rollback` entered `committedState > commitAddedNodes` and evaluated `t.btreesBackend[0]`; with no
+store attached that was an index-out-of-range PANIC (finding C14-F3, fixed). Kept for the record only: nothing runs it. -/
+def phase2TxFLegacy (s : St) (work : Bool) : R :=
+  if s.hasBegun && s.pd != 0 && decide (s.mode = .forWriting) && work && s.backend.isNone then
+    ⟨{ s with pd := 2, logState := 11 }, .panic, [], true⟩
+  else phase2TxF s work
 
 /-! ## `SinglePhaseTransaction.Commit` -/
 def commitTxF (s : St) (fx : Fx) : R :=
